@@ -28,9 +28,9 @@ def sh(cmd, cwd=None, timeout=1800):
 def suite(cwd, extra=""):
     """returns (ok, summary) for the full test suite"""
     for attempt in range(2):  # one retry: console read_exact is timing sensitive under load
-        rc, out = sh(f"cargo test --offline {extra} 2>&1 | tail -40", cwd=cwd)
+        rc, out = sh(f"cargo test --offline {extra} > .suite.log 2>&1; echo RC=$?; tail -40 .suite.log; rm -f .suite.log", cwd=cwd)
         res = re.findall(r"test result: (\w+)\. (\d+) passed; (\d+) failed", out)
-        ok = bool(res) and all(r[0] == "ok" for r in res) and "error" not in out.split("test result")[0][-200:]
+        ok = bool(res) and all(r[0] == "ok" for r in res) and "RC=0" in out
         if ok:
             return True, res
         if "read_exact" not in out:
